@@ -94,6 +94,11 @@ class Folder:
                 return float('nan')
             if e.attr == 'inf':
                 return float('inf')
+        if e.attr in ('shape', 'size', 'ndim') and not (isinstance(e.value, ast.Name) and e.value.id in ('np', 'numpy', 'math')):
+            v = self.ev(e.value, env)
+            if isinstance(v, (list, tuple)) and all(isinstance(x, (int, float)) for x in v):
+                # a 1-D model vector
+                return {'shape': (len(v),), 'size': len(v), 'ndim': 1}[e.attr]
         raise CannotFold('attribute %s' % ast.unparse(e))
 
     def e_Tuple(self, e, env):
@@ -270,7 +275,8 @@ class Folder:
                     raise CannotFold('%s: %s' % (fn.attr, ex))
         if isinstance(fn, ast.Name):
             t = self.module.funcs.get(fn.id)
-            if isinstance(t, Func) and t.jit is None and not t.node.decorator_list:
+            if isinstance(t, Func) and (not t.node.decorator_list or t.jit is not None):
+                # a plain helper, or a jitted one (numba compiles what the source says): folded in turn
                 return fold_call(self.prog, t, args, kwargs, self)
         raise CannotFold('call of %s' % ast.unparse(fn))
 
